@@ -6,7 +6,9 @@ pub fn bt_disabled() -> std::backtrace::Backtrace {
     std::backtrace::Backtrace::disabled()
 }
 
-/// Error *text* is outside every claim; `format!` returns the empty string.
+/// Error *text* is outside every claim; `format!` returns a fixed two-character string (not the
+/// empty one: the generated wrapper does `err_msg.truncate(err_msg.len() - 2)` on a string that
+/// starts with a `format!` result, which must not underflow because of the stub).
 pub fn fmt_stub(_args: core::fmt::Arguments<'_>) -> String {
-    String::new()
+    String::from("??")
 }
